@@ -14,6 +14,7 @@ Stage 3  exhaustive probe of the real application (harness.app.App):
          C. on every response whose version was accepted (2xx and 4xx): `openstack-api-version: placement 1.N`
             naming the applied version and `vary` listing the header                        [monitor]
          D. the probes of SUSPECTED_DEFECTS (see there).
+         E. every route below its first version under varied Accept / Content-Type: still the documented 404/405.
 """
 import fcntl
 import json
@@ -124,8 +125,20 @@ SUSPECTED_DEFECTS = [
              'openstack-api-version present, Vary absent',
      'origin': 'content-type-required', 'method': 'POST', 'path': '/resource_providers',
      'kw': {'raw_body': b'{}', 'content_type': None}},
+    # Decorator order in placement/handlers/aggregate.py: check_accept / require_content are applied *outside*
+    # version_handler (every other versioned handler has version_handler outermost), so below 1.1 the route
+    # is refused for its media type before it is refused for its version.  Found by part E.
+    {'signature': 'route-below-introduction:GET /resource_providers/{uuid}/aggregates:accept',
+     'what': 'at 1.0 GET /resource_providers/{uuid}/aggregates (introduced in 1.1) with `Accept: text/plain` answers '
+             '406 instead of the documented 404',
+     'part': 'E'},
+    {'signature': 'route-below-introduction:PUT /resource_providers/{uuid}/aggregates:content-type',
+     'what': 'at 1.0 PUT /resource_providers/{uuid}/aggregates (introduced in 1.1) with `Content-Type: text/plain` or '
+             'without body answers 415 instead of the documented 404',
+     'part': 'E'},
 ]
 SUSPECT_SIGNATURES = {d['signature'] for d in SUSPECTED_DEFECTS}
+HEADER_DEFECTS = [d for d in SUSPECTED_DEFECTS if d.get('part') != 'E']
 
 
 # ================================================================================================== lean side
@@ -339,7 +352,7 @@ def part_a(cx, thorough, case_index):
                           'state': 'harness.props.c14.build_state (providers U1>U2, U3; inventories; traits; aggregate; '
                                    'CUSTOM_RC1; allocation of C1)'}
                 if not matches(want_doc, r.status):
-                    chk.violation('monitor', 'route:%s %s' % (m, t or "''"),
+                    chk.violation('monitor', 'route:%s %s' % (m, t or '(empty path)'),
                                   'availability differs from the documented surface at version header %r: documented %s, '
                                   'observed status %d' % (label, fmt(want_doc), r.status),
                                   dict(replay, expected=fmt(want_doc)))
@@ -349,10 +362,10 @@ def part_a(cx, thorough, case_index):
                     chk.violation('correspondence', 'lean-has-no-row:%s %s' % (m, t),
                                   'the Lean dump has no prediction for this cell', replay)
                 elif not matches(want_lean, r.status):
-                    chk.violation('correspondence', 'availability:%s %s' % (m, t or "''"),
+                    chk.violation('correspondence', 'availability:%s %s' % (m, t or '(empty path)'),
                                   'Lean `respond` predicts %s at %r, application answered %d'
                                   % (fmt(want_lean), label, r.status), dict(replay, lean=fmt(want_lean)))
-                if doc[0] == 'reject' and 406 in doc[1] and r.status == 406:
+                if doc[0] == 'reject' and 406 in doc[1] and r.status == 406 and m != 'HEAD':   # HEAD has no body
                     e = (r.json or {}).get('errors', [{}])[0] if isinstance(r.json, dict) else {}
                     if e.get('min_version') != '1.%d' % DOC_MIN or e.get('max_version') != '1.%d' % DOC_MAX:
                         chk.violation('monitor', 'negotiation-406-body',
@@ -883,7 +896,7 @@ def part_d(cx, defect_index):
     cases = [c for c in header_cases() if c[4][0] == 'accept']
     snap = cx.app.snapshot()
     seen = {}
-    for d in [SUSPECTED_DEFECTS[defect_index]]:
+    for d in [HEADER_DEFECTS[defect_index]]:
         before = len([v for v in cx.chk.violations if v[1] == d['signature']])
         for case in cases:
             cx.app.restore(snap)
@@ -893,6 +906,41 @@ def part_d(cx, defect_index):
         seen[d['signature']] = after - before
     cx.app.restore(snap)
     return seen
+
+
+BELOW_ROUTES = sorted(k for k, (n, _b) in DOC_ROUTES.items() if n > 0)
+
+
+def part_e(cx, route_index):
+    """a route that is not yet introduced answers its documented 404/405 whatever the Accept / Content-Type"""
+    chk = cx.chk
+    template, method = BELOW_ROUTES[route_index]
+    n, below = DOC_ROUTES[(template, method)]
+    path = concretise(template)
+    snap = cx.app.snapshot()
+    cases = [c for c in header_cases() if c[4][0] == 'accept' and c[4][1] < n]
+    jb = {'body': {}} if method in ('PUT', 'POST') else {}
+    variants = [('accept', 'text/plain', dict(jb, accept='text/plain')), ('accept', '*/*', dict(jb, accept='*/*')),
+                ('accept', 'absent', dict(jb, accept=None))]
+    if method in ('PUT', 'POST'):
+        variants += [('content-type', 'text/plain', {'raw_body': b'{}', 'content_type': 'text/plain'}),
+                     ('content-type', 'absent, no body', {})]
+    for case in cases:
+        for vname, vdetail, kw in variants:
+            cx.app.restore(snap)
+            r = cx.call(method, path, case, **kw)
+            chk.evaluation(['E', template, method, case[0], vname, vdetail])
+            chk.tally('below_introduction', '%s %s' % (method, template))
+            if r.status != below:
+                sig = 'route-below-introduction:%s %s:%s' % (method, template, vname)
+                chk.violation('monitor', sig,
+                              'route introduced in 1.%d answers %d instead of the documented %d at version header %r'
+                              % (n, r.status, below, case[0]) + (' [SUSPECTED_DEFECT]' if sig in SUSPECT_SIGNATURES else ''),
+                              {'method': method, 'path': path, 'request_headers': dict(req_headers(case), **{
+                                  k.replace('_', '-'): v for k, v in kw.items() if k in ('accept', 'content_type')}),
+                               'variant': '%s: %s' % (vname, vdetail), 'body': kw.get('body'),
+                               'raw_body': repr(kw.get('raw_body')), 'expected': below, 'observed': r.status})
+    cx.app.restore(snap)
 
 
 _W = {}
@@ -913,6 +961,8 @@ def _worker(item):
         part_a(cx, _W['thorough'], idx)
     elif kind == 'B':
         part_b(cx, _W['gens'], _W['thorough'], idx)
+    elif kind == 'E':
+        part_e(cx, idx)
     else:
         extra = part_d(cx, idx)
     rec.cov['responses_with_header_check'] = cx.n_header_checks
@@ -929,7 +979,8 @@ def run(chk):
     feature_table_agreement(chk, pred, probes)
     cases = header_cases()
     items = [('B', i) for i in range(len(probes))] + [('A', i) for i in range(len(cases))] + \
-            [('D', i) for i in range(len(SUSPECTED_DEFECTS))]
+            [('D', i) for i in range(len(HEADER_DEFECTS))] + \
+            [('E', i) for i in range(len(BELOW_ROUTES))]
     nproc = max(1, min(int(os.environ.get('VERIF_JOBS', '8')), os.cpu_count() or 1))
     chk.cov['matrix_cells'] = 0
     chk.cov['responses_with_header_check'] = 0
@@ -945,6 +996,9 @@ def run(chk):
     chk.cov['matrix_dimensions'] = {'header_cases': len(cases), 'path_templates': len(templates), 'methods': len(methods)}
     chk.cov['feature_probes_defined'] = len(probes)
     chk.cov['features'] = len(DOC_FEATURES)
+    for d in SUSPECTED_DEFECTS:
+        if d.get('part') == 'E':
+            seen[d['signature']] = len([v for v in chk.violations if v.signature == d['signature']])
     chk.cov['suspected_defects'] = [{'signature': d['signature'], 'what': d['what'],
                                      'reproduced_on_requests': seen.get(d['signature'], 0)} for d in SUSPECTED_DEFECTS]
     chk.sample({'part': 'A', 'example': 'DELETE /resource_providers/{uuid}/inventories',
@@ -964,7 +1018,9 @@ def run(chk):
                        'cell against a fixed state where every named entity exists; a cell is a distinct case. '
                        'B: every probe of every feature x 40 versions + none + latest + other service type; a case is '
                        '(feature, probe, header case). C: header check on every response of A, B, D with an accepted version. '
-                       'D: every suspected-defect probe x 43 accepted header cases.')
+                       'D: every suspected-defect header probe x 43 accepted header cases. '
+                       'E: every route with a documented first version N > 1.0 x every accepted header case below N x '
+                       'Accept text/plain, */*, absent (+ Content-Type text/plain, no body for PUT/POST).')
     chk.assumptions += ['Routes matches a concrete URL to its path template as the templates read (trusted; probed on one '
                         'concrete instance per template)',
                         'the documented surface is rest_api_version_history.rst + api-ref as transcribed in DOC_ROUTES / '
